@@ -71,6 +71,21 @@ CLAIMED = {
         text="Necessary conditions, bounded: for every half-line, range (all inclusivities), point range, complement and operator result over a 21-version pool covering release lengths, trailing zeros, pre/post/dev and epochs, the interpreted str() does not raise, is accepted by the modelled specifier grammar and parses back to an object equal under the interpreted __eq__; renderer/parser special tokens agree. One known finding (lossy '~=' when the dropped bound is a post-release; pinned by the existing tests). Real packaging acceptance and shapes outside the pool are not decided.",
         note="trusts: vsa/pkgmodel.py as PEP 440 (parse, order, normal form, specifier grammar)",
         ref="DESIGN.md §4 C06", thorough=True),
+    "C04": dict(
+        technique="static analysis: bounded abstract interpretation of parse/operators/contains from source (packaging replaced by a PEP 440 model) over expression trees on a leaf pool; partial evaluation of _from_pkg_specifier's arithmetic on a text-shape grammar",
+        text="Necessary conditions, bounded: for expression trees (depth <= 2, &, |, ~) over 23 PEP 440 leaf specifiers (every operator, wildcards, ~=, comma sets, pre/post/dev/epoch bounds, === leaves) and 15 final-release candidates, the interpreted `v in result` equals the Boolean combination of the PEP 440 operator table on the leaves (=== trees: equation or ValueError); Empty/Any membership constants; the bound values of _from_pkg_specifier equal the PEP 440 table on ~5000 text shapes. One known finding (shared root with C06). Agreement with packaging's implementation beyond the PEP table is not decided.",
+        note="trusts: vsa/pkgmodel.py operator table for final releases",
+        ref="DESIGN.md §4 C04", thorough=True),
+    "C11": dict(
+        technique="static analysis: bounded abstract interpretation of MarkerExpression.specifier/_get_specifier, from_specifier and evaluate from source on operator x value-shape classes (packaging replaced by a PEP 440 model)",
+        text="Bounded: for python_version (values X, X.Y) and python_full_version (X.Y, X.Y.Z) atoms with every comparison operator, ~=, wildcards and python_version in/not in lists, `v in atom.specifier` equals atom.evaluate for every candidate interpreter; from_specifier on every simple specifier shape returns None or an equivalent atom; routing table of version-like names. Two known findings (PEP 508 substring semantics of `in` vs the version-list view).",
+        note="trusts: vsa/pkgmodel.py; candidate grid 2.7..4.0",
+        ref="DESIGN.md §4 C11", thorough=False),
+    "C17": dict(
+        technique="static analysis: partial evaluation of _from_pkg_specifier on a finite grammar of PEP 440 text shapes (raise-freedom), AST cross-read of packaging's operator table, abstract interpretation of parse_version_specifier's exception translation",
+        text="Structural clauses only: every operator of packaging's Specifier._operators is handled; none of ~5000 valid text shapes (epochs, all pre/post/dev spellings/separators/case, 1-4 segments, wildcards, ~=) makes the parser's own arithmetic raise; valid sets / `||` / `<empty>` parse; texts rejected by the modelled grammar raise dep_logic's InvalidSpecifier and nothing else; from_specifierset is total on non-=== sets. Equality of the accepted language with packaging's regexes is not decided.",
+        note="trusts: PEP 440 grammar in vsa/pkgspec.py and vsa/pkgmodel.py in place of packaging's regexes",
+        ref="DESIGN.md §4 C17", thorough=False),
 }
 
 NOT_APPLICABLE = {
